@@ -85,6 +85,21 @@ def fragment_header(state):
 
         state["_picture_initial_fragment_offset"] = fragment_offset
     else:
+        # Errata: not specified in standard...
+        #
+        # (14.2) A fragment containing slices is only permitted while a
+        # fragmented picture is in progress. (NB: When no fragmented picture is
+        # in progress, e.g. because its initial fragment is missing, the state
+        # used by the remaining checks may never have been populated.)
+        if state["_fragment_slices_remaining"] == 0:
+            raise TooManySlicesInFragmentedPicture(
+                state.get("_picture_initial_fragment_offset", fragment_offset),
+                fragment_offset,
+                state.get("fragment_slices_received", 0),
+                state["_fragment_slices_remaining"],
+                state["fragment_slice_count"],
+            )
+
         # (14.2) Appart from when fragment_slice_count==0, the picture number
         # must not change
         if state["_last_picture_number"] != state["picture_number"]:
